@@ -1,6 +1,6 @@
 (* C05: lemmas about the ConcatenatedLazyIndexer model (Model/ConcatIdx.v). *)
 From Coq Require Import ZArith List Bool Lia.
-From KV Require Import Base.Sx Base.PySlice Base.AxisIndex Base.NdArray Gen.Generated Model.LazyIdx Model.ConcatIdx Proofs.LazyIdxP.
+From KV Require Import Base.Sx Base.PySlice Base.AxisIndex Base.NdArray Base.LazyDType Gen.Generated Model.LazyIdx Model.ConcatIdx Proofs.LazyIdxP.
 Import ListNotations.
 Open Scope Z_scope.
 
@@ -58,6 +58,26 @@ Lemma concat_example_supported :
   /\ run_concat two_parts [AList [3; 0; -1]] = spec_concat two_parts [] [AList [3; 0; -1]]
   /\ run_concat two_parts [AMask [true; false; false; true; true]; AInt 0]
      = spec_concat two_parts [] [AMask [true; false; false; true; true]; AInt 0].
+Proof. repeat split; vm_compute; try reflexivity; discriminate. Qed.
+
+(* parts with byte strings of different widths (the narrow one first, an empty part of another kind between them):
+   every head kind answers in the dtype of the concatenation |S4 with the full strings; kinds that do not all
+   agree are rejected at construction; a buffer of the first part's width would have lost data *)
+Definition bytes_parts : list craw :=
+  [mk_craw [3] [] (tree_map (enc_val 102) (arange [3] 0)) 102; mk_craw [0] [] (arange [0] 0) 1;
+   mk_craw [2] [] (tree_map (enc_val 104) (arange [2] 3)) 104].
+
+Definition has_dtype (dt : Z) (r : res arr) : Prop := match r with Ok x => a_dtype x = dt | Err => False end.
+
+Lemma concat_dtype_example :
+  run_concat bytes_parts [AList [4; 0]] = spec_concat bytes_parts [] [AList [4; 0]]
+  /\ has_dtype 104 (run_concat bytes_parts [AList [4; 0]])
+  /\ run_concat bytes_parts [ASlice None (Some 2) None] = spec_concat bytes_parts [] [ASlice None (Some 2) None]
+  /\ has_dtype 104 (run_concat bytes_parts [ASlice None (Some 2) None])
+  /\ run_concat bytes_parts [AInt 1] = spec_concat bytes_parts [] [AInt 1]
+  /\ run_concat bytes_parts [AMask [false; true; false; false; true]] = spec_concat bytes_parts [] [AMask [false; true; false; false; true]]
+  /\ run_concat [mk_craw [2] [] (arange [2] 0) 0; mk_craw [2] [] (arange [2] 1) 1] [] = Err
+  /\ cast_val 104 102 (enc_val 104 7) <> enc_val 104 7.
 Proof. repeat split; vm_compute; try reflexivity; discriminate. Qed.
 
 (* ================================================================== C05_concat *)
@@ -305,7 +325,27 @@ Qed.
 Definition part_ok (T : list Z) (dt : Z) (p : cpart) (f : nd) : Prop :=
   nd_shape f = part_len p :: T /\ part_tail p = T
   /\ (exists ch, nd_body f = Node ch /\ zlen ch = part_len p)
-  /\ (forall ixs out, part_get p ixs = Ok out -> oindex f ixs = Ok (a_nd out) /\ a_dtype out = dt).
+  /\ (forall ixs out, part_get dt p ixs = Ok out -> oindex f ixs = Ok (a_nd out) /\ a_dtype out = dt).
+
+(* the same about the part's own answer (its own dtype), before it is cast into the result *)
+Definition part_ok0 (T : list Z) (p : cpart) (f : nd) : Prop :=
+  nd_shape f = part_len p :: T /\ part_tail p = T
+  /\ (exists ch, nd_body f = Node ch /\ zlen ch = part_len p)
+  /\ (forall ixs out, part_get0 p ixs = Ok out -> oindex f ixs = Ok (a_nd out) /\ a_dtype out = part_dtype p).
+
+Lemma astype_widen dt x : dtype_le (a_dtype x) dt -> astype dt x = mk_arr dt (a_nd x).
+Proof.
+  intro H. unfold astype. rewrite tree_map_id by (intro v; now apply cast_widen). now destruct (a_nd x).
+Qed.
+
+(* a part whose dtype fits the common dtype delivers the same elements into the result (no narrowing cast) *)
+Lemma part_ok_upgrade T dt p f : part_ok0 T p f -> dtype_le (part_dtype p) dt -> part_ok T dt p f.
+Proof.
+  intros [H1 [H2 [H3 H4]]] Hle. repeat split; try assumption.
+  - unfold part_get in H. destruct (part_get0 p ixs) as [sub|] eqn:E; [|discriminate]. cbn [bind] in H. injection H as <-.
+    destruct (H4 _ _ E) as [HO HD]. rewrite astype_widen by (now rewrite HD). exact HO.
+  - unfold part_get in H. destruct (part_get0 p ixs) as [sub|] eqn:E; [|discriminate]. cbn [bind] in H. now injection H as <-.
+Qed.
 
 Lemma pad_to_id : forall k l, List.length l = k -> pad_to k l = l.
 Proof. induction k; intros [|x l] H; try discriminate; cbn; [reflexivity|]. f_equal. apply IHk. now injection H. Qed.
@@ -370,7 +410,7 @@ Section Concat.
 
   (* the answer of one part, in terms of rows of the concatenation *)
   Lemma part_rows i pd hix out : (i < List.length ps)%nat ->
-    part_get (nth i ps pd) (hix :: tail) = Ok out ->
+    part_get dt (nth i ps pd) (hix :: tail) = Ok out ->
     exists Pq d, resolve (nth i lens 0) hix = Ok (Pq, d)
       /\ a_dtype out = dt
       /\ a_nd out = mk_nd (take_shape ((Pq, d) :: S))
@@ -564,7 +604,7 @@ Section SliceBranch.
   Qed.
 
   Lemma head_slice_chunks chunks out :
-    mapM (slice_chunk ps starts tail (take_shape S) start stop st)
+    mapM (slice_chunk dt ps starts tail (take_shape S) start stop st)
          (py_range (find_indexer starts start) (find_indexer starts stop + 1) 1) = Ok chunks ->
     concat_chunks dt (take_shape S) chunks = Ok out ->
     head_result fs dt S out (py_range start stop st, false).
@@ -597,7 +637,7 @@ Section SliceBranch.
       rewrite Hoff in Hc.
       set (off := bnd lens j) in *.
       set (cs := if off <=? start then start - off else (start - off) mod st) in *.
-      destruct (part_get (nth j ps pd) _) as [sub|] eqn:EG; [|discriminate]. cbn [bind] in Hc.
+      destruct (part_get dt (nth j ps pd) _) as [sub|] eqn:EG; [|discriminate]. cbn [bind] in Hc.
       unfold reshape_chunk in Hc. destruct (existsb _ _); [discriminate|]. injection Hc as <-.
       destruct (part_rows ps fs T dt tail S HP HT HS Hlen _ pd _ _ Hj EG) as [Pq [d [ER [HD [HN _]]]]].
       fold lens in ER, HN. fold CH in HN. fold off in HN.
@@ -643,11 +683,11 @@ Lemma part_ok_of_raw r li a1 :
   Forall (fun d => 0 <= d) (r_shape r) -> r_shape r <> [] ->
   mk_lazy (r_shape r) (r_keep r) [] (r_dt r) = Ok li ->
   oindex_keep (mk_nd (r_shape r) (r_ds r)) (r_keep r) = Ok a1 ->
-  part_ok (tl (nd_shape a1)) (r_dt r) (mk_cpart li (r_ds r)) a1 /\ 0 <= part_len (mk_cpart li (r_ds r)).
+  part_ok0 (tl (nd_shape a1)) (mk_cpart li (r_ds r)) a1 /\ 0 <= part_len (mk_cpart li (r_ds r)).
 Proof.
   intros Hs Hne HM H1.
   destruct (mk_lazy_fields _ _ _ _ _ _ _ Hs HM H1) as [F1 [F2 [F3 [F4 [F5 F6]]]]].
-  unfold part_ok, part_len, part_tail. cbn [cp_li cp_ds]. rewrite F1.
+  unfold part_ok0, part_len, part_tail, part_dtype. cbn [cp_li cp_ds]. rewrite F1.
   assert (Hnd : exists h T, nd_shape a1 = h :: T).
   { destruct (nd_shape a1) as [|h T] eqn:E; [|eauto]. destruct (r_shape r); [congruence|discriminate]. }
   destruct Hnd as [h [T Hsh]]. rewrite Hsh. cbn [hd tl]. rewrite Hsh in F5.
@@ -661,10 +701,11 @@ Proof.
       (destruct (resolve_keep n _) as [p1|]; [|discriminate]); cbn [bind] in EK;
       (destruct (mapM _ (combine sh _)) as [rest|]; [|discriminate]); cbn [bind] in EK; injection EK as <-;
       cbn [take_shape take] in *; injection Hsh as <- _; (eexists; split; [reflexivity|]); now rewrite zlen_map.
-  - intros ixs out HG. unfold part_get in HG. cbn [cp_li cp_ds] in HG.
+  - intros ixs out HG. unfold part_get0 in HG. cbn [cp_li cp_ds] in HG.
     pose proof (getitem_correct _ _ _ _ _ _ _ _ _ Hs HM H1 HG) as SP.
     unfold spec_getitem in SP. rewrite H1 in SP. cbn [bind] in SP.
-    destruct (oindex a1 ixs) as [a2|]; [|discriminate]. cbn in SP. injection SP as <-. split; reflexivity.
+    destruct (oindex a1 ixs) as [a2|]; [|discriminate]. cbn in SP. injection SP as <-. split; [reflexivity|].
+    cbn [a_dtype cp_li]. now rewrite F4.
 Qed.
 
 (* ------------------------------------------------------------------ 7. mask head *)
@@ -740,7 +781,7 @@ Section MaskBranch.
   Qed.
 
   Lemma head_mask_chunks chunks out :
-    mapM (mask_chunk m tail (take_shape S)) (combine (combine ps starts) lens) = Ok chunks ->
+    mapM (mask_chunk dt m tail (take_shape S)) (combine (combine ps starts) lens) = Ok chunks ->
     concat_chunks dt (take_shape S) chunks = Ok out ->
     head_result fs dt S out (nonzero m, false).
   Proof.
@@ -765,7 +806,7 @@ Section MaskBranch.
       assert (Hoff : nth j starts 0 = bnd lens j).
       { unfold starts. rewrite starts_from_nth by (rewrite Hl; exact Hj). lia. }
       rewrite Hoff in Hc. rewrite <- bnd_S in Hc by (rewrite Hl; exact Hj).
-      destruct (part_get (nth j ps pd) _) as [sub|] eqn:EG; [|discriminate]. cbn [bind] in Hc.
+      destruct (part_get dt (nth j ps pd) _) as [sub|] eqn:EG; [|discriminate]. cbn [bind] in Hc.
       unfold reshape_chunk in Hc. destruct (existsb _ _); [discriminate|]. injection Hc as <-.
       destruct (part_rows ps fs T dt tail S HP HT HS Hlen _ pd _ _ Hj EG) as [Pq [d [ER [HD [HN _]]]]].
       fold lens in ER, HN. fold CH in HN.
@@ -853,7 +894,7 @@ Section ListBranch.
   Let inds := map (find_indexer starts) xs.
 
   Lemma scatter_parts_inv : forall n i out out', (i + n = k)%nat ->
-    scatter_parts (skipn i ps) (Z.of_nat i) (skipn i starts) xs inds tail out = Ok out' ->
+    scatter_parts dt (skipn i ps) (Z.of_nat i) (skipn i starts) xs inds tail out = Ok out' ->
     Forall2 filled out xs -> Forall2 filled out' xs.
   Proof.
     assert (Hl : List.length lens = k) by (unfold lens, k; apply map_length).
@@ -870,16 +911,16 @@ Section ListBranch.
       rewrite Hoff in HSP.
       set (mask := map (fun j => j =? Z.of_nat i) inds) in *.
       assert (Hstep : exists out1, (if existsb (fun b => b) mask
-                       then sub <- part_get (nth i ps pd) (AList (map (fun z => z - bnd lens i) (select mask xs)) :: tail) ;;
+                       then sub <- part_get dt (nth i ps pd) (AList (map (fun z => z - bnd lens i) (select mask xs)) :: tail) ;;
                             scatter out inds (Z.of_nat i) (children (nd_body (a_nd sub)))
                        else Ok out) = Ok out1 /\
-                     scatter_parts (skipn (Datatypes.S i) ps) (Z.of_nat i + 1) (skipn (Datatypes.S i) starts) xs inds tail out1 = Ok out').
+                     scatter_parts dt (skipn (Datatypes.S i) ps) (Z.of_nat i + 1) (skipn (Datatypes.S i) starts) xs inds tail out1 = Ok out').
       { destruct (if existsb (fun b => b) mask then _ else _) as [out1|]; [|discriminate]. eauto. }
       destruct Hstep as [out1 [H1 H2]].
       replace (Z.of_nat i + 1) with (Z.of_nat (Datatypes.S i)) in H2 by lia.
       apply (IH (Datatypes.S i) out1 out' ltac:(lia) H2).
       destruct (existsb (fun b => b) mask); [|now injection H1 as <-].
-      destruct (part_get (nth i ps pd) _) as [sub|] eqn:EG; [|discriminate]. cbn [bind] in H1.
+      destruct (part_get dt (nth i ps pd) _) as [sub|] eqn:EG; [|discriminate]. cbn [bind] in H1.
       destruct (part_rows ps fs T dt tail S HP HT HS Hlen _ pd _ _ Hik EG) as [Pq [d [ER [_ [HN _]]]]].
       fold lens in ER, HN. fold CH in HN.
       cbn [resolve] in ER. destruct (mapM (wrap_res _) _) as [Pq'|] eqn:EW; [|discriminate].
@@ -1066,34 +1107,33 @@ Proof.
   apply andb_prop in H. destruct H as [H1 H2]. f_equal; [lia|now apply IH].
 Qed.
 
-Definition raw_ok (dt : Z) (r : craw) : Prop :=
-  Forall (fun d => 0 <= d) (r_shape r) /\ r_shape r <> [] /\ r_dt r = dt.
+Definition raw_ok (r : craw) : Prop :=
+  Forall (fun d => 0 <= d) (r_shape r) /\ r_shape r <> [].
 
-Definition PF (dt : Z) (p : cpart) (f : nd) : Prop :=
-  part_ok (tl (nd_shape f)) dt p f /\ 0 <= part_len p /\ part_len p = hd 0 (nd_shape f) /\ li_dtype0 (cp_li p) = dt.
+(* q = (first-stage result, dtype) of the raw part that p was built from *)
+Definition PF (p : cpart) (q : nd * Z) : Prop :=
+  part_ok0 (tl (nd_shape (fst q))) p (fst q) /\ 0 <= part_len p /\ part_len p = hd 0 (nd_shape (fst q))
+  /\ part_dtype p = snd q.
 
-Lemma parts_fulls dt : forall raws psA fulls, Forall (raw_ok dt) raws ->
+Lemma parts_fulls : forall raws psA fulls, Forall raw_ok raws ->
   mapM (fun r => li <- mk_lazy (r_shape r) (r_keep r) [] (r_dt r) ;; Ok (mk_cpart li (r_ds r))) raws = Ok psA ->
   mapM (fun r => oindex_keep (mk_nd (r_shape r) (r_ds r)) (r_keep r)) raws = Ok fulls ->
-  Forall2 (PF dt) psA fulls.
+  Forall2 PF psA (combine fulls (map r_dt raws)).
 Proof.
   induction raws as [|r raws IH]; intros psA fulls HR HM HF; cbn in HM, HF.
   - injection HM as <-. injection HF as <-. constructor.
-  - inversion HR as [|? ? [R1 [R2 R3]] HR']; subst.
+  - inversion HR as [|? ? [R1 R2] HR']; subst.
     destruct (mk_lazy _ _ _ _) as [li|] eqn:EL; [|discriminate]. cbn [bind] in HM.
     destruct (mapM _ raws) as [ps'|] eqn:EM in HM; [|discriminate]. cbn [bind] in HM. injection HM as <-.
     destruct (oindex_keep _ _) as [a1|] eqn:EO; [|discriminate]. cbn [bind] in HF.
     destruct (mapM _ raws) as [fs'|] eqn:EF in HF; [|discriminate]. cbn [bind] in HF. injection HF as <-.
-    constructor; [|apply IH; auto].
+    cbn [map combine]. constructor; [|apply IH; auto].
     destruct (part_ok_of_raw r li a1 R1 R2 EL EO) as [PO PL].
     destruct (mk_lazy_fields _ _ _ _ _ _ _ R1 EL EO) as [_ [_ [_ [F4 _]]]].
-    split; [exact PO|]. split; [exact PL|]. split; [|exact F4].
+    unfold PF. cbn [fst snd]. split; [exact PO|]. split; [exact PL|]. split; [|exact F4].
     destruct PO as [Hsh _]. rewrite Hsh. reflexivity.
 Qed.
 
-(* C05_concat: for every list of raw parts (any number, some empty, each with its own first stage), every index
-   tuple and every transform chain: if the concatenated indexer answers, the answer is the same index applied to
-   the concatenation of the parts' first-stage results, then the transforms (values, shape, dtype). *)
 Lemma c_mk_used raws ts c : c_mk raws ts = Ok c ->
   exists psA, mapM (fun r => li <- mk_lazy (r_shape r) (r_keep r) [] (r_dt r) ;; Ok (mk_cpart li (r_ds r))) raws = Ok psA
     /\ c = mk_concat (used_of (fun p => negb (part_len p =? 0)) psA) ts.
@@ -1103,65 +1143,79 @@ Proof.
   intro H. injection H as <-. exists psA. split; [reflexivity|]. unfold used_of. reflexivity.
 Qed.
 
-Lemma concat_correct dt raws ts ix c out fulls :
-  Forall (raw_ok dt) raws ->
+Lemma combine_map_fst {A B} : forall (l : list A) (l' : list B), List.length l = List.length l' -> map fst (combine l l') = l.
+Proof. induction l as [|x l IH]; intros [|y l'] H; cbn in *; try discriminate; [reflexivity|]. f_equal. apply IH. lia. Qed.
+
+Lemma Forall2_map_r {A B C} (g : B -> C) (Rel : A -> C -> Prop) l ys :
+  Forall2 (fun x y => Rel x (g y)) l ys -> Forall2 Rel l (map g ys).
+Proof. induction 1; cbn; constructor; auto. Qed.
+
+(* C05_concat: for every list of raw parts (any number, some empty, each with its own first stage AND its own dtype),
+   every index tuple and every transform chain: if the indexer could be constructed (dtypes all equal or all byte
+   strings) and answers, the answer is the same index applied to np.concatenate of the parts' first-stage results,
+   then the transforms -- values, shape, and dtype = numpy's promotion of the parts' dtypes. *)
+Lemma concat_correct raws ts ix c out fulls :
+  Forall raw_ok raws ->
   mapM (fun r => oindex_keep (mk_nd (r_shape r) (r_ds r)) (r_keep r)) raws = Ok fulls ->
   c_mk raws ts = Ok c -> c_getitem c ix = Ok out ->
   spec_concat raws ts ix = Ok out.
 Proof.
   intros HR HFu HM HG. destruct (c_mk_used _ _ _ HM) as [psA [EP ->]].
-  pose proof (parts_fulls dt raws psA fulls HR EP HFu) as HPF.
+  pose proof (parts_fulls raws psA fulls HR EP HFu) as HPF.
+  set (fd := combine fulls (map r_dt raws)) in *.
   set (nzp := fun p : cpart => negb (part_len p =? 0)) in *.
-  set (nzf := fun a : nd => negb (hd 0 (nd_shape a) =? 0)).
-  assert (HU : Forall2 (PF dt) (used_of nzp psA) (used_of nzf fulls)).
-  { apply used_Forall2. eapply Forall2_impl'; [|exact HPF]. intros p f H. split; [exact H|].
-    destruct H as [_ [_ [H _]]]. unfold nzp, nzf. now rewrite H. }
+  set (nzq := fun q : nd * Z => negb (hd 0 (nd_shape (fst q)) =? 0)).
+  assert (Hfst : map fst fd = fulls).
+  { unfold fd. apply combine_map_fst. rewrite map_length. exact (mapM_ok_length _ _ _ HFu). }
+  assert (HU : Forall2 PF (used_of nzp psA) (used_of nzq fd)).
+  { apply used_Forall2. eapply Forall2_impl'; [|exact HPF]. intros p q H. split; [exact H|].
+    destruct H as [_ [_ [H _]]]. unfold nzp, nzq. now rewrite H. }
   (* the dropped parts carry no rows *)
   assert (HW : zsum (map part_len (used_of nzp psA)) = zsum (map (fun a => hd 0 (nd_shape a)) fulls)).
-  { rewrite <- (used_sum (fun a => hd 0 (nd_shape a)) nzf fulls).
+  { rewrite <- Hfst, map_map. rewrite <- (used_sum (fun q : nd * Z => hd 0 (nd_shape (fst q))) nzq fd).
     - clear -HU. induction HU as [|p f l l' H _ IH]; [reflexivity|]. cbn [map zsum fold_right].
-      fold (zsum (map part_len l)). fold (zsum (map (fun a => hd 0 (nd_shape a)) l')). rewrite IH.
+      fold (zsum (map part_len l)). fold (zsum (map (fun q : nd * Z => hd 0 (nd_shape (fst q))) l')). rewrite IH.
       destruct H as [_ [_ [H _]]]. now rewrite H.
-    - intros a _ Ha. unfold nzf in Ha. lia. }
-  assert (HC : List.concat (map (fun f => children (nd_body f)) (used_of nzf fulls))
+    - intros a _ Ha. unfold nzq in Ha. lia. }
+  assert (HC : List.concat (map (fun f => children (nd_body f)) (map fst (used_of nzq fd)))
                = List.concat (map (fun f => children (nd_body f)) fulls)).
-  { apply used_concat. intros a Hin Ha. unfold nzf in Ha.
+  { rewrite <- Hfst, !map_map. apply used_concat. intros a Hin Ha. unfold nzq in Ha.
     destruct (Forall2_in_r _ _ _ _ HPF Hin) as [p [[_ [_ [[ch [Hb Hl]] _]]] [_ [Hlen _]]]].
     rewrite Hb. cbn [children]. destruct ch; [reflexivity|]. rewrite zlen_cons in Hl. pose proof (zlen_nonneg ch). lia. }
-  (* the indexer answered: tails and dtypes of the used parts agree *)
-  remember (used_of nzp psA) as used eqn:EU. remember (used_of nzf fulls) as fused eqn:EFu.
+  (* the indexer answered: tails agree and the dtypes have a common dtype d0 *)
+  remember (used_of nzp psA) as used eqn:EU. remember (used_of nzq fd) as fused eqn:EFu.
   assert (HG' := HG). unfold c_getitem in HG'. cbn [c_parts c_ts] in HG'.
   destruct (c_initial_shape used) as [init|] eqn:EI; [|discriminate]. cbn [bind] in HG'.
   destruct (c_initial_dtype used) as [d0|] eqn:ED; [|discriminate]. clear HG'.
-  destruct HU as [|p0 f0 ur fr HP0 HUr]; [discriminate|].
+  destruct HU as [|p0 q0 ur qr HP0 HUr]; [discriminate|].
   set (T := part_tail p0).
   unfold c_initial_shape in EI. destruct (forallb _ ur) eqn:EB in EI; [|discriminate]. clear EI init.
-  assert (HPO : Forall2 (part_ok T dt) (p0 :: ur) (f0 :: fr)).
-  { constructor.
-    - destruct HP0 as [PO _]. assert (E : tl (nd_shape f0) = T) by (destruct PO as [_ [E _]]; now rewrite <- E).
-      now rewrite E in PO.
-    - rewrite forallb_forall in EB. clear -HUr EB. induction HUr as [|q f ur' fr' H _ IH]; [constructor|].
-      constructor; [|apply IH; intros x Hx; apply EB; now right].
+  unfold c_initial_dtype in ED. destruct (common_dtype_spec _ _ ED) as [HLe HPr].
+  assert (HDs : map part_dtype (p0 :: ur) = map snd (q0 :: qr)).
+  { cbn [map]. f_equal; [destruct HP0 as [_ [_ [_ H]]]; exact H|]. clear -HUr.
+    induction HUr as [|q f ? ? H _ IH]; [reflexivity|]. cbn [map]. f_equal; [|exact IH]. destruct H as [_ [_ [_ H]]]. exact H. }
+  assert (HPO : Forall2 (part_ok T d0) (p0 :: ur) (map fst (q0 :: qr))).
+  { apply Forall2_map_r. cbn [map] in HLe. pose proof (Forall_inv HLe) as HLe0. pose proof (Forall_inv_tail HLe) as HLer. constructor.
+    - destruct HP0 as [PO _]. assert (E : tl (nd_shape (fst q0)) = T) by (destruct PO as [_ [E _]]; now rewrite <- E).
+      rewrite E in PO. now apply part_ok_upgrade.
+    - rewrite forallb_forall in EB. clear -HUr EB HLer. revert HLer. induction HUr as [|q f ur' fr' H _ IH]; intro HLer; [constructor|].
+      cbn [map] in HLer. pose proof (Forall_inv HLer) as HLq. pose proof (Forall_inv_tail HLer) as HLr.
+      constructor; [|apply IH; [intros x Hx; apply EB; now right|exact HLr]].
       destruct H as [PO _]. specialize (EB q ltac:(now left)). apply list_eqb_eq in EB.
-      assert (E : tl (nd_shape f) = part_tail p0) by (destruct PO as [_ [E _]]; now rewrite <- E, <- EB).
-      now rewrite E in PO. }
+      assert (E : tl (nd_shape (fst f)) = part_tail p0) by (destruct PO as [_ [E _]]; now rewrite <- E, <- EB).
+      rewrite E in PO. now apply part_ok_upgrade. }
   assert (HL : Forall (fun p => 0 <= part_len p) (p0 :: ur)).
   { constructor; [destruct HP0 as [_ [H _]]; exact H|]. clear -HUr.
     induction HUr as [|q f ? ? H _ IH]; constructor; auto. destruct H as [_ [H _]]. exact H. }
-  assert (HD : c_initial_dtype (p0 :: ur) = Ok dt).
-  { unfold c_initial_dtype in *. destruct (forallb _ ur) in ED |- *; [|discriminate].
-    destruct HP0 as [_ [_ [_ H]]]. now rewrite H. }
-  pose proof (concat_core (p0 :: ur) (f0 :: fr) T dt HPO ltac:(discriminate) HL ts ix out HD HG) as CC.
+  pose proof (concat_core (p0 :: ur) (map fst (q0 :: qr)) T d0 HPO ltac:(discriminate) HL ts ix out ED HG) as CC.
   (* the spec side *)
-  unfold spec_concat. rewrite HFu. cbn [bind].
-  change (match filter (fun a : nd => negb (hd 0 (nd_shape a) =? 0)) fulls with
-          | [] => firstn 1 fulls | _ :: _ => filter (fun a : nd => negb (hd 0 (nd_shape a) =? 0)) fulls end)
-    with (used_of nzf fulls). rewrite <- EFu.
+  unfold spec_concat. rewrite HFu. cbn [bind]. fold fd.
+  change (match filter (fun q : nd * Z => negb (hd 0 (nd_shape (fst q)) =? 0)) fd with
+          | [] => firstn 1 fd | _ :: _ => filter (fun q : nd * Z => negb (hd 0 (nd_shape (fst q)) =? 0)) fd end)
+    with (used_of nzq fd). rewrite <- EFu.
+  assert (ET : tl (nd_shape (fst q0)) = T) by (destruct HP0 as [[_ [E _]] _]; now rewrite <- E).
+  destruct q0 as [a0 dq0]. cbn [fst snd map] in *.
+  rewrite <- HDs, HPr. cbn [bind].
   rewrite <- HW. unfold cat. rewrite flat_map_concat_map, map_map. rewrite <- HC.
-  assert (ET : tl (nd_shape f0) = T) by (destruct HP0 as [[_ [E _]] _]; now rewrite <- E).
-  rewrite ET.
-  assert (EDt : match raws with [] => 0 | r0 :: _ => r_dt r0 end = dt).
-  { destruct raws as [|r0 rr]; [|inversion HR as [|? ? [_ [_ H]] _]; exact H].
-    cbn in EP. injection EP as <-. discriminate. }
-  rewrite EDt. exact CC.
+  rewrite ET. exact CC.
 Qed.
